@@ -12,6 +12,8 @@
   what the correspondence (cell-by-cell comparison with α) and the decode oracle check.
 -/
 import VProofs.Lemmas.PandasL
+import VProofs.Obligations.PandasBagInfer
+import VProofs.Obligations.PandasNulls
 namespace V.C06
 open V V.Gen V.Pd
 
@@ -190,5 +192,43 @@ theorem C06_lossless_datetime_date (c : Column) (h : datetimeIsDate c = .ok true
 example : floatIsInteger ⟨.fam .float, [Cell.ofFloat (.fin 3 1)], ["0"], "None"⟩ = .ok false := by rfl
 example : floatIsInteger ⟨.fam .float, [Cell.ofFloat (.fin 1 0), Cell.missing .nan], ["0", "1"], "None"⟩ = .ok true := by rfl
 example : complexIsFloat ⟨.fam .complex, [Cell.ofComplex (.fin 3 0) (.fin 1 40)], ["0"], "None"⟩ = .ok false := by rfl
+
+/-- **the whole inference walk keeps the shape**: for every typeset built from the relation table, the column that
+`infer` returns has the index labels, the name and the number of rows of the input, whatever path was taken -/
+theorem C06_shape_infer (o : ColOracle) (hdt : DtShape o) (b : Built Ty) (ft : FromTable b) (f : Nat) (n : Ty) (c : Column) :
+    let d := (ptraverse (pandasTS o b).succ f n c).1
+    d.index = c.index ∧ d.name = c.name ∧ d.cells.length = c.cells.length := by
+  have l0 := pandasTS_L0 o b
+  induction f generalizing n c with
+  | zero => exact ⟨rfl, rfl, rfl⟩
+  | succ f ih =>
+    simp only [ptraverse]
+    cases hfa : pfirst ((pandasTS o b).succ n) c with
+    | none => exact ⟨rfl, rfl, rfl⟩
+    | some r =>
+      have hmem : r ∈ (pandasTS o b).succ n := List.mem_of_find?_eq_some hfa
+      have hstep : (r.xform c).index = c.index ∧ (r.xform c).name = c.name ∧ (r.xform c).cells.length = c.cells.length := by
+        by_cases hi : r.inferential = true
+        · obtain ⟨g, t, _, htd, _, hxf⟩ := inf_rel_spec ft hmem hi
+          rw [hxf c]
+          cases htc : t c with
+          | ok d => exact C06_shape o hdt n r.dst t htd c d htc
+          | error e => exact ⟨rfl, rfl, rfl⟩
+        · have hi' : r.inferential = false := by simpa using hi
+          rw [(l0 n r hmem hi').2 c]; exact ⟨rfl, rfl, rfl⟩
+      have := ih r.dst (r.xform c)
+      simp only at this ⊢
+      exact ⟨this.1.trans hstep.1, this.2.1.trans hstep.2.1, this.2.2.trans hstep.2.2⟩
+
+/-- **positions of missing values are kept by every coercion of the relation table** (one step): under `NullHyp` —
+a `str` element is not missing and does not parse to NaN (false exactly for the `'nan'` strings of known findings F15 /
+F15b), a missing complex value is stored with a NaN real part, `pd.to_datetime` leaves `NaT` where the input is missing.
+These are named hypotheses about the input column; the C06 oracle checks the conclusion on the real code for every
+generated column, with or without them. -/
+theorem C06_nulls_step (o : ColOracle) (src dst : Ty) (g : Column → R Bool) (t : Column → R Column)
+    (hg : guard o src dst = some g) (ht : xform o src dst = some t) (c c' : Column) (hyp : NullHyp o c)
+    (hsrc : containsB src c = true) (hacc : g c = .ok true) (hx : t c = .ok c') :
+    c'.cells.map (·.null) = c.cells.map (·.null) :=
+  nulls_pandas o src dst g t hg ht c c' hyp hsrc hacc hx
 
 end V.C06
